@@ -9,6 +9,7 @@ import (
 	"io"
 	"io/ioutil"
 	"runtime"
+	"strings"
 	"sync"
 	"time"
 
@@ -221,6 +222,25 @@ func c19Jobs(r *vhlib.Run) []job {
 			}})
 		}
 	}
+	// archives of the same SHAPE (stored chunks of equal sizes, an index flushed in the middle): their last
+	// index block and footer are byte for byte the same although the contents differ - whatever a Reader
+	// remembers about "the archive" beyond its own object must not be keyed by that
+	for k := 0; k < 4; k++ {
+		d := vhlib.RandBytes(rng, 900)
+		sink, plain, _ := makeXFStream(xwCfg{Level: 0, ChunkSize: 100, Index: -1}, []xwOp{{Kind: 'w', Data: d[:400]}, {Kind: 'f', Mode: 2}, {Kind: 'w', Data: d[400:]}, {Kind: 'c'}})
+		want := append([]byte{}, plain...)
+		jobs = append(jobs, job{"xflate.Reader(same-shape)", func() string {
+			xr, err := xflate.NewReader(bytes.NewReader(sink), nil)
+			if err != nil {
+				return "open-failed"
+			}
+			out, rerr := readCap(xr)
+			if !bytes.Equal(out, want) {
+				return fmt.Sprintf("WRONG CONTENT %d/%d %v", len(out), len(want), rerr)
+			}
+			return sum(out, []byte(vhlib.ErrClass(rerr)))
+		}})
+	}
 	for k := 0; k < 3; k++ {
 		sink, _, _ := makeXFStream(xwCfg{Level: 6, ChunkSize: 64, Index: 4}, []xwOp{{Kind: 'w', Data: vhlib.RandBytes(rng, 3000)}, {Kind: 'c'}})
 		jobs = append(jobs, job{"xflate.Reader", func() string {
@@ -247,6 +267,10 @@ func runC19(r *vhlib.Run) {
 	want := make([]string, len(jobs))
 	for i, j := range jobs {
 		want[i] = j.Run()
+		if strings.HasPrefix(want[i], "WRONG CONTENT") {
+			// a job that knows its own expected output: instances used one after the other already interfere
+			r.Violate("result-differs-when-interleaved", fmt.Sprintf("%s, run after other instances of its type in the same process: %s", j.Name, want[i]), map[string]interface{}{"job": j.Name})
+		}
 		if d := sharedDigest(); d != before {
 			r.Violate("shared-table-modified", fmt.Sprintf("package-level tables changed while running %s alone", j.Name), map[string]interface{}{"job": j.Name})
 			before = d
